@@ -222,6 +222,12 @@ func (cw *c08World) modifier(c c08Case) (module.Modifier, error) {
 	}
 	txt := fmt.Sprintf("domains %s %s\nselector %s\nkey_path %s/{domain}_{selector}.key\nheader_canon %s\nbody_canon %s\nnewkey_algo %s\n",
 		c08ASCIIDom, c08IDNDomain, c08Selector, kd, c.HC, c.BC, algo)
+	if strings.HasPrefix(c.Key, "sub:") {
+		// "sub:<algo>": one signing domain whose key also signs for its subdomains; the sender
+		// is in a subdomain, the key record is published at the signing domain only
+		txt = fmt.Sprintf("domains %s\nsign_subdomains yes\nselector %s\nkey_path %s/{domain}_{selector}.key\nheader_canon %s\nbody_canon %s\nnewkey_algo %s\n",
+			c08ASCIIDom, c08Selector, kd, c.HC, c.BC, strings.TrimPrefix(c.Key, "sub:"))
+	}
 	nodes, err := parser.Read(strings.NewReader(txt), "c08")
 	if err != nil {
 		return nil, err
@@ -349,6 +355,9 @@ func c08Run(n int, c c08Case) (fp, detail, note string) {
 	dom := c08ASCIIDom
 	if c.IDN {
 		dom = c08IDNDomain
+	}
+	if strings.HasPrefix(c.Key, "sub:") {
+		dom = "lists." + c08ASCIIDom
 	}
 	from := fmt.Sprintf("s%d-%d@%s", os.Getpid(), n, dom)
 	meta := &module.MsgMetadata{ID: fmt.Sprintf("c08-%d-%d", os.Getpid(), n), SMTPOpts: smtp.MailOptions{UTF8: c.EAI}}
@@ -707,11 +716,29 @@ func c08PreProvisioned(emit func(c08Case)) {
 	}
 }
 
+// c08Subdomains: sign_subdomains: the sender is in a subdomain of the one signing domain.
+func c08Subdomains(emit func(c08Case)) {
+	for _, kt := range []string{"rsa2048", "ed25519"} {
+		for _, canon := range []string{"relaxed", "simple"} {
+			for _, reload := range []bool{false, true} {
+				fr := c08Froms("lists." + c08ASCIIDom)[0]
+				var fields []c08Str
+				for _, grp := range [][]string{fr.fields, c08Tos[0].fields, c08Subjects[0].fields} {
+					for _, f := range grp {
+						fields = append(fields, c08Str(f))
+					}
+				}
+				emit(c08Case{Key: "sub:" + kt, HC: canon, BC: canon, Reload: reload, Fields: fields, Body: c08Str(c08Bodies[1].body), BodyTag: c08Bodies[1].tag})
+			}
+		}
+	}
+}
+
 func TestVerifC08(t *testing.T) {
 	log.DefaultLogger.Out = log.NopOutput{}
 	r := vx.Start("C08", "spool+smtp")
 	defer r.Finish()
-	r.Rule("messages from a grammar of header-field shapes (5 From x 15 Subject x 3 To x 6 groups of further fields incl. more than 1 MiB of padding fields above the signed ones: folding with SP/TAB, fold right after the colon, whitespace-only continuation, empty values, 980-octet values, repeated fields, lower/upper-case names, 8-bit and UTF-8 values, a foreign DKIM-Signature) x 21 bodies (5 of them larger than the 32 KiB copy buffer with a line terminator or a leading dot on a buffer boundary; empty, CRLF only, leading/trailing empty lines, dot lines, trailing and inner whitespace, 998-octet line, 8-bit, UTF-8) x key {rsa2048, ed25519; generated by the module, or provisioned beforehand without a .dns file under either newkey_algo setting} x header canon x body canon x {ASCII, IDN signing domain} x {SMTPUTF8 on, off} x {first attempt, retry from the spool}; signed by modify.dkim, queued, sent by target.smtp to a scripted server; oracle: payload verifies with go-msgauth and with the independent vdkim verifier against the .dns record maddy wrote, and every tampered copy (signed field removed / altered, over-signed field added at top / bottom, body extended) is rejected by both. Quick tier: a covering subset of field-shape combinations; thorough: the full product")
+	r.Rule("messages from a grammar of header-field shapes (5 From x 15 Subject x 3 To x 6 groups of further fields incl. more than 1 MiB of padding fields above the signed ones: folding with SP/TAB, fold right after the colon, whitespace-only continuation, empty values, 980-octet values, repeated fields, lower/upper-case names, 8-bit and UTF-8 values, a foreign DKIM-Signature) x 21 bodies (5 of them larger than the 32 KiB copy buffer with a line terminator or a leading dot on a buffer boundary; empty, CRLF only, leading/trailing empty lines, dot lines, trailing and inner whitespace, 998-octet line, 8-bit, UTF-8) x key {rsa2048, ed25519; generated by the module, or provisioned beforehand without a .dns file under either newkey_algo setting; or one signing domain with sign_subdomains and a sender in a subdomain} x header canon x body canon x {ASCII, IDN signing domain} x {SMTPUTF8 on, off} x {first attempt, retry from the spool}; signed by modify.dkim, queued, sent by target.smtp to a scripted server; oracle: payload verifies with go-msgauth and with the independent vdkim verifier against the .dns record maddy wrote, and every tampered copy (signed field removed / altered, over-signed field added at top / bottom, body extended) is rejected by both. Quick tier: a covering subset of field-shape combinations; thorough: the full product")
 	if rp := r.Replay(); rp != nil {
 		var c c08Case
 		if json.Unmarshal(rp, &c) != nil {
@@ -761,6 +788,7 @@ func TestVerifC08(t *testing.T) {
 	}
 	c08Enumerate(vx.Thorough(), emit)
 	c08PreProvisioned(emit)
+	c08Subdomains(emit)
 	r.Bound("cases_enumerated", idx)
 	if c08W != nil {
 		c08W.q.Close()
